@@ -56,6 +56,39 @@ def parse_out(out):
     return d
 
 
+FORMS = {"transfer": "get -> {}", "transfer-full": "patch, put : { 'a num } -> <status=200, {}> :: <status=4XX>", "primitive": "num", "object": "{ 'a num, 'b? str }",
+         "array": "[num]", "uri": "/a/{ 'id int }/b", "application": "f x y", "recursion": "rec x { 'next x }", "group": "(num)", "alternative": "a | b",
+         "join": "a & { 'c num }", "content": "<status=200>", "content-body": "<media=\"text/plain\", str>", "variable": "q.v", "literal": "\"lit\"",
+         "property": "'p num", "annotated": "num `minimum: 0`"}
+POSITIONS = {"sole-meta": "<headers=%s>", "first-meta": "<headers=%s, media=\"a/b\">", "last-meta": "<status=200, headers=%s>", "meta-then-body": "<headers=%s, {}>",
+             "body": "<%s>", "body-after-meta": "<status=200, %s>", "property": "{ 'p %s }", "second-property": "{ 'p num, 'q %s }", "element": "[%s]", "group": "(%s)",
+             "argument": "f %s", "second-argument": "f a %s", "left-operand": "%s | b", "right-operand": "a & %s", "range": "get -> %s", "domain": "put : %s -> {}",
+             "second-range": "get -> {} :: %s", "rec-body": "rec x %s"}
+
+
+def forms_in_positions():
+    """Every expression form in every syntactic position, as a declaration and as the right-hand side of a resource: small texts
+    in which each position's back-tracking (a content tried with and without a body, an application tried before a term, ...)
+    meets each form's first token. Well formed or not, the tree and the errors must not depend on the memo table."""
+    out = {}
+    for pn, pos in POSITIONS.items():
+        for fn, form in FORMS.items():
+            out["form/%s/%s" % (pn, fn)] = "let a = %s;\nres /r on get -> %s;\n" % (pos % form, pos % form)
+    return out
+
+
+def pool_texts():
+    out = {}
+    try:
+        import pool
+        for k, files in pool.programs().items():
+            for fn, text in files.items():
+                out["pool/%s/%s" % (k, fn)] = text
+    except Exception:
+        pass
+    return out
+
+
 def run_corpus(tag="memo"):
     drv = build_parsedrv()
     rdir = new_replay_dir("C12", tag)
@@ -64,8 +97,10 @@ def run_corpus(tag="memo"):
     # without the memo table the parser is exponential in the nesting depth: keep the comparison shallow
     for d in (2, 4):
         texts["nested-%d" % d] = nested(d)
+    texts.update(forms_in_positions())
+    texts.update(pool_texts())
     for name, text in texts.items():
-        with open(os.path.join(rdir, name + ".oal"), "w") as f:
+        with open(os.path.join(rdir, name.replace("/", "_") + ".oal"), "w") as f:
             f.write(text)
         rc, out, t = run([drv], stdin=text, timeout=120, mem_gb=4)
         r = parse_out(out)
@@ -195,6 +230,7 @@ def memo_lemmas(o, L, S, E, MM, MS, fs, structural, on_sat, bad):
     nocache = ms.proj(SELF, ("f", i_nc), E)
     table = ("addr", ms.proj(SELF, ("f", i_cache), E))
     keys = {}
+    allkeys = {"lookup": set(), "cache": set()}
     ex = mirlib.executor([MM])
     for p in ex.run(f_look, arg_names=["self", "p", "s"]):
         if p.kind != "return":
@@ -204,6 +240,7 @@ def memo_lemmas(o, L, S, E, MM, MS, fs, structural, on_sat, bad):
         if g:
             L.expect_unsat("lookup: the table is consulted only when caching is on", cond + [S.b(nocache)], on_sat)
             keys["lookup"] = g[0][2][1]
+            allkeys["lookup"] |= {x[2][1] for x in g}
             if p.ret[0] == "variant" and p.ret[2] == "None":
                 # written with `?`: a miss answers None - and only a miss
                 L.expect_unsat("lookup: None from a consulted table only on a miss", cond + [S.disc(S.v(g[0][3])) != 0], on_sat)
@@ -223,11 +260,18 @@ def memo_lemmas(o, L, S, E, MM, MS, fs, structural, on_sat, bad):
         if ins:
             L.expect_unsat("cache: stores only when caching is on", cond + [S.b(nocache)], on_sat)
             keys["cache"] = ("addr", ins[0][2][1])
+            allkeys["cache"] |= {("addr", x[2][1]) for x in ins}
             structural("cache: stores the given result in its own table", ins[0][2][0] == table and ins[0][2][2] == ("sym", "r"))
         else:
             L.expect_unsat("cache: skips storing only when caching is off", cond + [z3.Not(S.b(nocache))], on_sat)
     structural("lookup and cache use the same key (cursor, tag)", keys.get("lookup") is not None and keys.get("lookup") == keys.get("cache"),
                "lookup key %s vs cache key %s" % (ms.show(keys.get("lookup"))[:60] if keys.get("lookup") else None, ms.show(keys.get("cache"))[:60] if keys.get("cache") else None))
+    # ... one key, on every path of both, and it is made of the cursor and the production's tag (a result filed under less
+    # than (cursor, tag) is answered to a production that never computed it)
+    onekey = allkeys["lookup"] == allkeys["cache"] and len(allkeys["lookup"]) == 1 and \
+        all(any(t == ("sym", a) for t in ms.subterms(k)) for k in allkeys["lookup"] for a in ("s", "p"))
+    structural("lookup and cache: one key on every path of both, built from the cursor and the tag", onekey,
+               "the memo table is read under %s and written under %s" % (sorted(ms.show(k)[:50] for k in allkeys["lookup"]), sorted(ms.show(k)[:50] for k in allkeys["cache"])))
     ex = mirlib.executor([MM])
     for p in ex.run(f_wo, arg_names=["self"]):
         if p.kind == "return":
